@@ -341,7 +341,8 @@ func (c *FnCtx) arith(op token.Token, x, y string, t, yTy types.Type, checks boo
 		// x & (2^k - 1)
 		if k, ok := constInt(y); ok && k.Sign() >= 0 {
 			k1 := new(big.Int).Add(k, big.NewInt(1))
-			if new(big.Int).And(k, k1).Sign() == 0 && !ii.signed {
+			// x & (2^k-1) == x mod 2^k, for signed x as well (two's complement)
+			if new(big.Int).And(k, k1).Sign() == 0 {
 				return "(mod " + x + " " + smtInt(k1) + ")"
 			}
 		}
@@ -367,9 +368,13 @@ func (c *FnCtx) bitUF(op, x, y string, ii intInfo) string {
 	c.decl("(declare-fun " + f + " (Int Int) Int)")
 	inr := func(v string) string { return "(and (<= " + smtInt(ii.min()) + " " + v + ") (<= " + v + " " + smtInt(ii.max()) + "))" }
 	c.decl("(assert (forall ((x Int) (y Int)) (! (=> (and " + inr("x") + " " + inr("y") + ") " + inr("("+f+" x y)") + ") :pattern ((" + f + " x y)))))")
-	if op == "or" && !ii.signed {
-		// x | y == x + y when x is a multiple of 2^k and y < 2^k (byte-assembly idiom b0<<8 | b1)
-		for k := 8; k < ii.bits; k += 8 {
+	if op == "or" {
+		// x | y == x + y when x >= 0 is a multiple of 2^k and 0 <= y < 2^k (byte-assembly idiom b0<<8 | b1)
+		top := ii.bits
+		if ii.signed {
+			top = ii.bits - 1
+		}
+		for k := 8; k < top; k += 8 {
 			p := smtInt(pow2(k))
 			c.decl("(assert (forall ((x Int) (y Int)) (! (=> (and (>= x 0) (<= (+ x y) " + smtInt(ii.max()) + ") (= (mod x " + p + ") 0) (<= 0 y) (< y " + p + ")) (= (" + f + " x y) (+ x y))) :pattern ((" + f + " x y)))))")
 		}
